@@ -222,10 +222,69 @@ def checkSetResult (id : String) (t : Ty) (tags : String) (realSI : Spec.SI) (sp
     else []
   e1 ++ e2
 
+def parseLF (t : Ty) (s : String) : Option (List Iv) :=
+  (s.splitOn ";").mapM fun tok => do
+    let v ← parseVal tok
+    valToIv t v
+
+def showLF (t : Ty) (f : List Iv) : String := ";".intercalate (f.map (showIv t))
+
+/-- `Linear_Form` events: the list model against the real coefficients; members of the result
+are checked coefficientwise on sampled instances -/
+def processLF (d3 : Bool) (id : String) (t : Ty) (ops is js rs : String) : List String :=
+  let p := t.pol
+  let R := t.rnd
+  match parseLF t is, parseLF t rs with
+  | some F, some RR =>
+    let model : Option (List Iv) :=
+      if ops == "lf:add" then (parseLF t js).map (lfAdd p R F)
+      else if ops == "lf:sub" then (parseLF t js).map (lfSub p R F)
+      else if ops == "lf:scale" then (parseLF t js).bind (fun l => l.head?.map (fun n => lfScale d3 p R n F))
+      else none
+    match model with
+    | none => [mism id "parse" "" ("bad linear form event " ++ ops)]
+    | some M =>
+      let m := if showLF t M == rs then [] else [mism id "model" "" ("model=" ++ showLF t M ++ " real=" ++ rs)]
+      -- coefficientwise enclosure of sampled instances in the REAL result
+      let G := (parseLF t js).getD []
+      let coeffOp (a b : Rat) : Rat := if ops == "lf:add" then a + b else if ops == "lf:sub" then a - b else a * b
+      let n := RR.length
+      let bad := (List.range n).filterMap fun i =>
+        let fi := F[i]?
+        let gi := if ops == "lf:scale" then G.head? else G[i]?
+        let ri := (RR[i]?).getD Iv.empty
+        let sa := match fi with | some x => (samples (Spec.ofIv x)).take 6 | none => [0]
+        let sb := match gi with | some y => (samples (Spec.ofIv y)).take 6 | none => [0]
+        let missingF := fi.isNone
+        let vals := sa.flatMap fun a => sb.map fun b =>
+          if ops == "lf:sub" && missingF then -b else if missingF then b else if gi.isNone then a else coeffOp a b
+        match vals.find? (fun c => !Spec.mem (Spec.ofIv ri) c) with
+        | some c => some (i, c)
+        | none => none
+      let e := match bad with
+        | [] => []
+        | (i, c) :: _ =>
+          -- `operator*` is `mul_assign` per coefficient: defect 3 can act there
+          let tags := if ops == "lf:scale" && d3 then
+              match F[i]?, G.head? with
+              | some x, some nn => d3Tags t x nn
+              | _, _ => []
+            else []
+          [mism id "enclose" (",".intercalate tags) ("coefficient " ++ toString i ++ ": instance value " ++ showRat c ++ " not in the result")]
+      m ++ e
+  | _, _ => [mism id "parse" "" "unparsable linear form"]
+
 def process (d3 d12 : Bool) (line : String) : List String :=
   let toks := (line.trimAscii.toString.splitOn " ").filter (· != "")
   match toks with
   | [id, tys, ops, is, js, rs, oks] =>
+    if ops.startsWith "lf:" then
+      match tyOf tys with
+      | some t =>
+        let r := processLF d3 id t ops is js rs
+        if r.isEmpty then ["ok " ++ id] else r
+      | none => [mism id "parse" "" "unknown type"]
+    else
     match tyOf tys, parseVal is, parseVal js, parseVal rs with
     | some t, some iv, some jv, some rv =>
       let p := t.pol
